@@ -22,15 +22,18 @@ func init() {
 	})
 	register(&Property{
 		ID: "C40",
-		Explanation: "Decides the decision structure of change detection, not the resulting snapshot contents: (change-detection-fields) in archiver.fileChanged, specialising in turn the comparison of node type, size, mtime, ctime and inode to 'differs' (ctime/inode with the respective ignore flag off) leaves no return other than the constant `true` reachable, and a nil parent node counts as changed; an attribute whose equality comparison is missing is a violation; (reuse-guard) in Archiver.save the store `node.Content = previous.Content` is reachable only with previous != nil, fileChanged false and allBlobsPresent true, fileChanged is handed the parent's node, and allBlobsPresent returns true only after every index lookup succeeded; (skip-if-unchanged) Archiver.Snapshot returns the (nil, nil) 'skipped' result only with a parent snapshot, the SkipIfUnchanged option and an equal root tree ID, never after SaveSnapshot, and SaveSnapshot is reached only on the complementary edges. Not decided: that equal metadata implies equal content (the documented heuristic), tree iteration order, and the parent lookup by path.",
+		Explanation: "Decides the decision structure of change detection, not the resulting snapshot contents: (change-detection-fields) in archiver.fileChanged, specialising in turn the comparison of node type, size, mtime, ctime and inode to 'differs' (ctime/inode with the respective ignore flag off) leaves no return other than the constant `true` reachable, and a nil parent node counts as changed; an attribute whose equality comparison is missing is a violation; (reuse-guard) in Archiver.save the store `node.Content = previous.Content` is reachable only with previous != nil, fileChanged false and allBlobsPresent true, fileChanged is handed the parent's node, and allBlobsPresent returns true only after every index lookup succeeded; (skip-if-unchanged) Archiver.Snapshot returns the (nil, nil) 'skipped' result only with a parent snapshot, the SkipIfUnchanged option and an equal root tree ID, never after SaveSnapshot, and SaveSnapshot is reached only on the complementary edges; (parent-errors-never-skip) in saveTree no path leads from a failed read of the parent snapshot (TreeFinder.Find, loadSubtree) to the next target unless archiving the item was at least attempted (arch.save / the recursive saveTree) or it was added to the new tree — the error ends the backup or the item is archived without its old state (added after a seeded change). Not decided: that equal metadata implies equal content (the documented heuristic), tree iteration order, and the parent lookup by path.",
 		Assumptions: commonAssumptions,
 		Technique:   "static analysis: specialised path-sensitive reachability of the 'unchanged' return per compared attribute + CFG edge cuts (go/ssa)",
 		Run: func(c *eng.Ctx) {
 			ruleChangeDetection(c)
 			ruleReuseGuard(c)
 			ruleSkipIfUnchanged(c)
+			ruleParentErrorsNeverSkip(c)
 		},
 		Controls: []Control{
+			{Name: "unfindable-parent-entry-skips-target", File: "internal/archiver/archiver.go",
+				Old: "		oldNode, err := finder.Find(name)\n		err = arch.error(snItem, err)\n		if err != nil {\n			return futureNode{}, 0, err\n		}\n		oldSubtree, err := arch.loadSubtree(ctx, oldNode)", New: "		oldNode, err := finder.Find(name)\n		if err != nil {\n			if arch.error(snItem, err) == nil {\n				continue\n			}\n			return futureNode{}, 0, err\n		}\n		oldSubtree, err := arch.loadSubtree(ctx, oldNode)", Rule: "parent-errors-never-skip"},
 			{Name: "mtime-only-forward", File: "internal/archiver/archiver.go",
 				Old: "	case !fi.ModTime.Equal(node.ModTime):", New: "	case fi.ModTime.After(node.ModTime):", Rule: "change-detection-fields"},
 			{Name: "inode-check-dropped", File: "internal/archiver/archiver.go",
@@ -127,11 +130,13 @@ func init() {
 	})
 	register(&Property{
 		ID: "C45",
-		Explanation: "Decides the 'no entry for other node types' clause: (dumpable-filter) every send of a *data.Node on a channel in package dump — the only way a node reaches the tar/zip writers — is reachable only on an edge where that node's Type equals file, dir or symlink, at the top level of the dumped directory as well as for nested nodes (this rule reported the genuine defect in sendNodes, now fixed); (format-siblings) dumpNodeTar and dumpNodeZip distinguish exactly these three types. (ordered-content) in Dumper.writeNode the order of a file's blobs survives concurrent loading: every loader goroutine sends the blob it loaded for the loop's element of node.Content on a channel created in that same iteration, the loop itself queues that channel on the FIFO channel of channels, and the single writer goroutine (started once, the only caller of Write) writes what it receives from each queued channel in turn — one shared result channel, or a writer not following the queue, is a violation (added after a seeded change that hoisted the channel out of the loop). Not decided: entry order across directories, permission bits and link targets.",
+		Explanation: "Decides the 'no entry for other node types' clause: (dumpable-filter) every send of a *data.Node on a channel in package dump — the only way a node reaches the tar/zip writers — is reachable only on an edge where that node's Type equals file, dir or symlink, at the top level of the dumped directory as well as for nested nodes (this rule reported the genuine defect in sendNodes, now fixed); (format-siblings) dumpNodeTar and dumpNodeZip distinguish exactly these three types. (ordered-content) in Dumper.writeNode the order of a file's blobs survives concurrent loading: every loader goroutine sends the blob it loaded for the loop's element of node.Content on a channel created in that same iteration, the loop itself queues that channel on the FIFO channel of channels, and the single writer goroutine (started once, the only caller of Write) writes what it receives from each queued channel in turn — one shared result channel, or a writer not following the queue, is a violation (added after a seeded change that hoisted the channel out of the loop); (every-dumpable-sent) the walk callback of sendNodes returns only nil, the error it was handed or ctx.Err() — never the walker's skip sentinel, which would drop all later siblings — and returns nil for a node only after offering it to the writer unless the node is nil or its type is none of file, dir, symlink (added after a seeded change). Not decided: entry order across directories, permission bits and link targets.",
 		Assumptions: commonAssumptions,
 		Technique:   "static analysis: enumeration of channel sends + CFG edge cuts on the type test of the sent value (go/ssa)",
-		Run:         func(c *eng.Ctx) { ruleDumpableFilter(c); ruleOrderedContent(c) },
+		Run:         func(c *eng.Ctx) { ruleDumpableFilter(c); ruleOrderedContent(c); ruleEveryDumpableSent(c) },
 		Controls: []Control{
+			{Name: "symlinks-filtered-out-silently", File: "internal/dump/common.go",
+				Old: "		if node.Type != data.NodeTypeFile && node.Type != data.NodeTypeDir && node.Type != data.NodeTypeSymlink {\n			return nil\n		}", New: "		if node.Type != data.NodeTypeFile && node.Type != data.NodeTypeDir {\n			return nil\n		}", Rule: "every-dumpable-sent"},
 			{Name: "root-nodes-unfiltered", File: "internal/dump/common.go",
 				Old: "	if root.Type != data.NodeTypeFile && root.Type != data.NodeTypeDir && root.Type != data.NodeTypeSymlink {\n		// only files, directories and symlinks are dumped, same as for nested nodes\n		return nil\n	}\n", New: "", Rule: "dumpable-filter"},
 			{Name: "one-result-channel-for-all-blobs", File: "internal/dump/common.go",
